@@ -104,3 +104,12 @@ Definition oracle (hist : list registration) (scripts : list hscript) (x : exc)
       | Some HPython => if obs_escaped || (obs_status =? internal_error_status) then [] else [3%nat]
       | _ => []
       end).
+
+(* ---- sessions: the expected handler of every lookup = nearest/latest over the
+   registrations made SO FAR *)
+Fixpoint spec_ops (hist : list registration) (ops : list op) : list (option hid) :=
+  match ops with
+  | [] => []
+  | OReg r :: tl => spec_ops (hist ++ [r]) tl
+  | OLookup mro :: tl => spec_handler hist mro :: spec_ops hist tl
+  end.
